@@ -7,7 +7,7 @@ from ..buscheck import fld, hexname, Tracker
 MODULE = "Dbus.Props.C05"
 THEOREMS = ["unicast_reaches_owner_once", "recipient_of_unicast_eavesdrops", "addressed_not_recipient", "no_owner_no_delivery",
             "refused_no_delivery", "undeliverable_one_error", "forwarded_fields_intact", "forwarded_rest_intact",
-            "outputs_in_processing_order"]
+            "outputs_in_processing_order", "stalled_owner_gets_nothing"]
 BUS = "org.freedesktop.DBus"
 WEIGHTS = {"call": 30, "signal": 14, "reply": 12, "request": 14, "release": 5, "close": 5, "connect": 5, "hello": 4, "addmatch": 6,
            "forged": 3, "query": 2, "driver_edge": 1, "badtype": 2, "nodest": 1, "garbage": 1, "removematch": 1}
@@ -23,7 +23,8 @@ def oracle(tr):
         actor = op[1] if op[0] == "send" else None
         if sent and actor in tk.names and fld(sent, "t") in ("1", "2", "3", "4"):
             d = hexname(fld(sent, "dest"))
-            if d is not None and d != BUS:
+            # (a sender or an owner that is not reading: neither the copy nor the error can be seen at this step)
+            if d is not None and d != BUS and actor not in tk.stalled and tk.primary(d) not in tk.stalled and tk.primary(d) != "?":
                 me = tk.names[actor]
                 owner = tk.primary(d)
                 # copies of this very message: same sender, serial and type, not made by the bus
@@ -63,6 +64,9 @@ def run(ctx):
                            findings=findings, label="unicast")
     buscheck.run_histories(ctx, n // 2, 90, oracle, gen_kw={"weights": WEIGHTS, "max_conns": 4, "names": [b"com.example.A", b"org.x"]},
                            findings=findings, seed_salt=4, label="unicast-two-names")
+    # recipients that do not read: their queue at the bus is over max_outgoing_bytes until they read again
+    buscheck.run_histories(ctx, n // 2, 80, oracle, gen_kw={"weights": dict(WEIGHTS, stall=5, unstall=4), "max_conns": 4, "no_eavesdrop": True},
+                           limits={"outgoing": 20000}, findings=findings, seed_salt=9, label="slow-readers")
 
 
 def replay(path):
